@@ -7,8 +7,8 @@ from props.common import differential, add_corr
 def run(rep, tier, seed, replay):
     PROP = "C05"
     rep.cov["rule"] = ("the real TCP processor between a scripted client and a scripted backend: streams of 0, 1, 2, 100, 4095, 16383, 16384, 16385, 40000, 100000 or random (<70000) bytes in "
-                       "each direction, written byte by byte with pauses, in pieces of 1-50 or 1-5000 bytes, or at once; a paced stream (a byte every 50 ms for 3 s) through a service whose idle timeout is 2 s; 6 MiB towards a backend that has half-closed and reads slowly; three orders: the client half-closes first and the backend "
-                       "answers only after it has seen end-of-stream, the reverse, both at once. Each side's received bytes (length + FNV-1a) and whether it saw a clean end-of-stream are "
+                       "each direction, written byte by byte with pauses, in pieces of 1-50 or 1-5000 bytes, or at once; a paced stream (a byte every 50 ms for 3 s) through a service whose idle timeout is 2 s; 6 MiB towards a backend that has half-closed and reads slowly; a backend that has finished and starts to read 1.2 s late through a service whose idle timeout is 0.4 s (8 MiB pile up in the relay and must still arrive); four orders: the client half-closes first and the backend "
+                       "answers only after it has seen end-of-stream, the reverse, both at once, and lockstep (a request/response exchange: each chunk - 1 byte, 16384 then 1 byte, ... - is sent only after the previous one has arrived at the other end, and must arrive within 1.5 s while the connection is open). Each side's received bytes (length + FNV-1a) and whether it saw a clean end-of-stream are "
                        "compared with the model relaying the same data under a spread of read sizes; the processor's upstream connection counters after the connection "
                        "(total/destroyed/active = 1/1/0, C20). non-trivial = more than one buffer in some direction or a byte-by-byte stream; distinct = distinct line")
     rep.assumptions += ["the proxy's own read sizes are not observable: C05_exact holds for every sequence of read sizes, the model run uses one",
